@@ -54,8 +54,8 @@ DoOpenRoot(vh) ==
   IF refs = {} THEN OpenRootPost(vh, hgen) /\ Fresh /\ Done(<<"open_root", vh, hgen>>) ELSE Refuse(<<"open_root", vh, -1>>, refs)
 DoOpenDir(dh, nm) ==
   LET refs == OpenDirRefs(dh, nm, TRUE) IN
-  IF refs = {} /\ ~OpenDirMayFail(dh, nm) THEN OpenDirPost(dh, nm, hgen) /\ Fresh /\ Done(<<"open_dir", dh, nm, hgen>>)
-  ELSE IF refs = {} THEN Refuse(<<"open_dir", dh, nm, -1>>, {"ok", "NotFound"})     \* "." on the root: either way (decision 3) - not taken in the model
+  \* "." on the root: the documentation says it re-opens the directory (decision 3 also admits NotFound; the model takes the documented branch)
+  IF refs = {} THEN OpenDirPost(dh, nm, hgen) /\ Fresh /\ Done(<<"open_dir", dh, nm, hgen>>)
   ELSE Refuse(<<"open_dir", dh, nm, -1>>, refs)
 DoCloseDir(dh) ==
   LET refs == CloseDirRefs(dh) IN
